@@ -47,6 +47,16 @@ def gen_cases(tier, seed):
     for i in range(16 if tier == "quick" else 300):
         cases.append({"kind": "ks", "cfg": dzoo.sample_program_flow(rng, 1), "seed": env.subseed(seed, "c04k", i), "world": "f64",
                       "nsamp": 200000 if tier == "quick" else 2000000, "cost": 8})
+    # every base distribution at least once under the distributional monitor (narrow mixture components included)
+    k = 0
+    for base in ("mademog", "mademog", "cond_diag", "plain", "standard"):
+        for ctx in ((0, 2) if base not in ("cond_diag",) else (2,)):
+            cfg = {"flow": "program", "D": 1, "ctx": ctx, "data": "R", "base": base, "embed": False, "embed_same_width": False,
+                   "narrow": k % 2 == 0, "policy": "randn0.3",
+                   "parts": [{"fam": "pointwise_affine", "shape": [1], "kind": "full", "pseed": 3 + k, "deprecated": False}]}
+            cases.append({"kind": "ks", "cfg": cfg, "seed": env.subseed(seed, "c04km", k), "world": "f64",
+                          "nsamp": 200000 if tier == "quick" else 2000000, "cost": 8})
+            k += 1
     # block routing of conditional subjects (raw conditional distributions and flows over a conditional base)
     nb = 24 if tier == "quick" else 600
     for i in range(nb):
